@@ -8,8 +8,10 @@ package graph
 //@   trusted
 //@   pure
 //@   ensures result != nil
+//@   ensures vset(result) != 0 && (vset(ctx) != 0 ==> vset(result) == vset(ctx))
 
 //@ func CheckAndAddVisited
 //@   trusted
 //@   pure
 //@   ensures result0 != nil
+//@   ensures vset(result0) != 0 && (vset(ctx) != 0 ==> vset(result0) == vset(ctx))
